@@ -7,6 +7,7 @@ the real functions, which are replaced by their contracts (modular reasoning),
 and states a clause of the property with `ensures`.
 """
 import ast
+import fractions
 import importlib
 import inspect
 import types
@@ -162,6 +163,7 @@ class Contract:
         self.property = spec.pop("prop", None)
         self.configs = spec.pop("configs", None)        # list of dicts of concrete param overrides
         self.post_hook = spec.pop("post_hook", None)
+        self.effects = spec.pop("effects", None)        # callable(interp, env): havoc what the call modifies (before ensures are assumed)
         self.variant = spec.pop("variant", None)
         self.env = dict(spec.pop("env", {}))
         self.notes = spec.pop("notes", "")
@@ -307,6 +309,8 @@ class Registry:
                 g = self.eval_clause(interp, cond, c, env)
                 if ctx.branch(sym.truth(g)):
                     raise PyRaise(exc("raised per contract of %s" % c.short))
+        if c.effects is not None and not ctx.spec_mode:
+            c.effects(interp, env)
         res = self.fresh_result(interp, c, env)
         if getattr(ctx, "bound_depth", 0) > 0:
             # under a binder: the instance would mention bound variables; rely on the quantified contract axiom
@@ -354,14 +358,17 @@ class Registry:
                 envi = {n: sym.index_into(v, idx, nd) for n, v in env.items()}
                 memo[key] = self._apply_scalar(interp, c, envi, caller, check_pre=False)
             return memo[key]
+        if isinstance(c.result, tuple) and c.result[0] == "tuple":
+            return tuple(SArr(shape, (lambda *idx, j=j: fn(*idx)[j]), "real") for j in range(c.result[1]))
         return SArr(shape, fn, "real")
 
     def ensure_axiom(self, interp, c):
         """forall xs. requires(xs) => ensures(F(xs), xs): the contract of a pure scalar function as a
-        quantified fact about its uninterpreted symbol (needed when applications occur under binders)"""
+        quantified fact about its uninterpreted symbol(s) (needed when applications occur under binders)"""
         ctx = interp.ctx
         done = ctx.ghost.setdefault("axioms_added", set())
-        if c.label in done or not c.pure or c.result not in ("real", "int", "bool"):
+        is_tuple = isinstance(c.result, tuple) and c.result[0] == "tuple"
+        if c.label in done or not c.pure or not (is_tuple or (isinstance(c.result, str) and c.result in ("real", "int", "bool"))):
             return
         sig = inspect.signature(c.fn_inner)
         names = [n for n in sig.parameters]
@@ -370,9 +377,7 @@ class Registry:
         done.add(c.label)
         xs = [z3.Real(ctx.fresh_name("cx_%s" % n)) for n in names]
         env = {n: Sym(x) for n, x in zip(names, xs)}
-        if c.uf is None or c.uf.arity() != len(xs):
-            c.uf = z3.Function("F_" + c.short.replace(".", "_"), *([z3.RealSort()] * len(xs) + [_SORTS[c.result]]))
-        res = Sym(c.uf(*xs))
+        res = self.fresh_result(interp, c, env)
         saved = ctx.pc
         ctx.pc = []
         ctx.spec_mode += 1
@@ -398,9 +403,17 @@ class Registry:
         kind = c.result
         if callable(kind) and not isinstance(kind, Kind):
             return kind(ctx, env)
+        if c.pure and isinstance(kind, tuple) and kind[0] == "tuple":
+            vals = list(env.values())
+            if all(isinstance(v, (Sym, int, float, bool, fractions.Fraction)) or _is_np_scalar(v) for v in vals):
+                if not isinstance(c.uf, list):
+                    c.uf = [z3.Function("F_%s_%d" % (c.short.replace(".", "_"), j),
+                                        *([z3.RealSort()] * len(vals) + [z3.RealSort()])) for j in range(kind[1])]
+                return tuple(Sym(f(*[sym.to_real(sym.lift(v)) for v in vals])) for f in c.uf)
+            return tuple(ctx.fresh("ret_%s_%d" % (c.short, j), "real") for j in range(kind[1]))
         if c.pure and kind in ("real", "int", "bool"):
             vals = list(env.values())
-            if all(isinstance(v, (Sym, int, float, bool)) or _is_np_scalar(v) for v in vals):
+            if all(isinstance(v, (Sym, int, float, bool, fractions.Fraction)) or _is_np_scalar(v) for v in vals):
                 if c.uf is None or c.uf.arity() != len(vals):
                     c.uf = z3.Function("F_" + c.short.replace(".", "_"),
                                        *([z3.RealSort()] * len(vals) + [_SORTS[kind]]))
